@@ -151,6 +151,37 @@ static void mul_case(int k, uint32_t size, unsigned dal, unsigned sal, rng_t *r,
 	rep_case_done(size > 0, 0, 1);
 }
 
+/* operand count times symbol size on and next to 2^32 (the operands alias four buffers: 65536 x 64 KiB is 4 GiB of XOR work but
+ * 256 KiB of memory). An even number of copies of the same buffer cancels, so the expected result is computed from the parity. */
+static void wrap_case(int k, uint32_t cnt, uint32_t size, rng_t *r)
+{
+	if (!rep_case("kernel=%s size=%u count=%u (count*size vs 2^32) aliased operands", kname[k], size, cnt)) return;
+	uint8_t *buf[4], *one = ar_alloc(size, 0, AR_KERNEL, 0), *one0 = malloc(size + 1), *exp = malloc(size + 1);
+	for (int q = 0; q < 4; q++) { buf[q] = ar_alloc(size, (unsigned)q, AR_KERNEL, q + 1); fill(r, buf[q], size, 0); }
+	fill(r, one, size, 0); memcpy(one0, one, size);
+	void **tab = malloc((size_t)cnt * sizeof(void *)); uint32_t par[4] = { 0, 0, 0, 0 };
+	for (uint32_t j = 0; j < cnt; j++) { unsigned q = (j * 7 + j / 5) & 3; if (k == K_TO) q = j & 3; tab[j] = buf[q]; par[q]++; }
+	if (k == K_FROM) {
+		for (int q = 0; q < 4; q++) ar_ro(buf[q]);
+		of_add_from_multiple_symbols(one, (const void **)tab, cnt, size);
+		memcpy(exp, one0, size);
+		for (int q = 0; q < 4; q++) if (par[q] & 1) for (uint32_t i = 0; i < size; i++) exp[i] ^= buf[q][i];
+		if (memcmp(one, exp, size)) bad(k, "wrong", "size=%u count=%u (count*size = %llu)", size, cnt, (unsigned long long)size * cnt);
+	} else {
+		/* every destination gets `one` XORed in as many times as it appears in the table */
+		uint8_t *b0[4]; for (int q = 0; q < 4; q++) { b0[q] = malloc(size + 1); memcpy(b0[q], buf[q], size); }
+		ar_ro(one);
+		of_add_to_multiple_symbols(tab, one, cnt, size);
+		for (int q = 0; q < 4; q++) { for (uint32_t i = 0; i < size; i++) exp[i] = (uint8_t)(b0[q][i] ^ ((par[q] & 1) ? one0[i] : 0)); if (memcmp(buf[q], exp, size)) { bad(k, "wrong", "size=%u count=%u operand %d", size, cnt, q); break; } }
+		for (int q = 0; q < 4; q++) free(b0[q]);
+	}
+	for (int q = 0; q < 4; q++) { if (ar_check(buf[q])) bad(k, "oob", "operand buffer %d damaged", q); ar_free(buf[q]); }
+	if (ar_check(one)) bad(k, "oob", "canary of the single operand"); ar_free(one);
+	free(tab); free(one0); free(exp);
+	rep_count("kernel_calls", 1);
+	rep_case_done(1, 0, 1);
+}
+
 int p_c13(void)
 {
 	long unit = 0;
@@ -197,6 +228,16 @@ int p_c13(void)
 			for (unsigned b = 0; b < 2; b++) for (uint32_t cnt = (k == K_ADD1 ? 1 : 0); cnt <= (k == K_ADD1 ? 1u : 20u); cnt += 3)
 				for (unsigned dal = 0; dal < 8; dal += 3) { xor_case(k, big[b], cnt, dal, &r, 0); xor_case(k, big[b], cnt, dal, &r, 1); }
 		}
+	{
+		static const uint32_t wp[][2] = { {65536, 65536}, {65535, 65536}, {65536, 65535}, {4096, 1048576}, {131072, 32768}, {65537, 65536} };
+		for (int k = K_FROM; k <= K_TO; k++) for (unsigned w = 0; w < 6; w++, unit++) {
+			rep_unit(unit);
+			if (!rep_unit_mine(unit)) continue;
+			if (!g_run.thorough && (w == 2 || w == 5 || (k == K_TO && w != 0))) continue;
+			rng_t r = rng_make(g_run.seed, 1345 + (uint64_t)k, w);
+			wrap_case(k, wp[w][0], wp[w][1], &r);
+		}
+	}
 	/* multiply-accumulate kernels */
 	for (int k = K_RS28; k <= K_M4C; k++)
 		for (uint32_t s0 = 0; s0 <= maxsz; s0 += 10, unit++) {
